@@ -92,6 +92,7 @@ class Spec:
     input: str
     output: str
     input_keys: Tuple[str, ...] = ("x",)
+    dur_nodes: Optional[Tuple[str, ...]] = None  # nodes with a symbolic duration (None: all but input/output)
 
     def __post_init__(self) -> None:
         self.by_name: Dict[str, Node] = {}
